@@ -169,25 +169,28 @@ IssueInvoiceAct(sl, amt) ==
   /\ LET r == IssueInvoice(st, "w2", [sl |-> sl, dest |-> "", amt |-> amt]) IN
      UpdS(r.steps, hv, net \cup {Msg(sl, "I1", amt, 0, OID(st, "w2", r.key), 0)},
          [ev |-> "issue_invoice", w |-> "w2", sl |-> sl, amt |-> amt])
-ProcessInvoiceAct(sl) ==
+\* the payer may attach a TTL (ttlb blocks from now) to the invoice it pays
+ProcessInvoiceAct(sl, ttlb) ==
   /\ \E m \in net : m.sl = sl /\ m.stage = "I1"
+  /\ Nrep(st, sl) < 2          \* (bound: at most two replies per invoice)
   /\ LET m == CHOOSE m \in net : m.sl = sl /\ m.stage = "I1"
          acct == st.w["w1"].active
          r1  == Refresh1(st, "w1", acct, FALSE)
          sel == Select(r1, "w1", acct, m.amt, Height(st), 1, 1)
+         ttl == IF ttlb = 0 THEN 0 ELSE Height(st) + ttlb
          args == [sl |-> sl, src |-> "", amt |-> m.amt, sel |-> sel.sel, chg |-> ChgSeq(sel), fee |-> sel.fee, ttl |-> 0]
          pe == ProcessInvoiceErr(st, "w1", args)
-         e == [ev |-> "process_invoice", w |-> "w1", sl |-> sl] IN
+         e == [ev |-> "process_invoice", w |-> "w1", sl |-> sl, ttlb |-> ttlb] IN
      IF pe # "ok" THEN Upd(st, hv, net, e)
      ELSE IF ~sel.ok THEN Upd(r1, hv, net, e)
      ELSE LET r == ProcessInvoice(st, "w1", args) IN
-          UpdS(r.steps, hv, net \cup {Msg(sl, "I2", m.amt, 0, m.rout, r.rep)}, e)
+          UpdS(r.steps, hv, net \cup {Msg(sl, "I2", m.amt, ttl, m.rout, r.rep)}, e)
 FinalizeInvoiceAct(sl, m) ==
   /\ m \in net /\ m.sl = sl /\ m.stage = "I2"
   /\ sl \in DOMAIN st.w["w2"].ctxs
   /\ sl \in DOMAIN st.w["w1"].ctxs
   /\ LET cx1 == st.w["w1"].ctxs[sl]
-         r == Finalize(st, "w2", [sl |-> sl, stage |-> "I2", rep |-> m.rep, rkern |-> "rpart", ttl |-> 0, valid |-> TRUE, proofok |-> TRUE,
+         r == Finalize(st, "w2", [sl |-> sl, stage |-> "I2", rep |-> m.rep, rkern |-> "rpart", ttl |-> m.ttl, valid |-> TRUE, proofok |-> TRUE,
                                   hasproof |-> FALSE,
                                   rout |-> {OID(st, "w1", cx1.outs[i].k) : i \in DOMAIN cx1.outs},
                                   rins |-> {OID(st, "w1", k) : k \in cx1.ins}, rfee |-> cx1.fee,
@@ -302,7 +305,8 @@ Next ==
   \/ UseSelf /\ \E sl \in Slates : ReceiveAct("w1", sl)
   \/ UseAccounts2 /\ (CreateAccount2Act \/ \E sl \in Slates : ReceiveActD("w2", sl, "acct1"))
   \/ \E sl \in Slates : \E m \in net : FinalizeAct(sl, m) \/ LockAct(sl, m)
-  \/ UseInvoice /\ \E sl \in Slates : (\E amt \in Amounts : IssueInvoiceAct(sl, amt)) \/ ProcessInvoiceAct(sl)
+  \/ UseInvoice /\ \E sl \in Slates : (\E amt \in Amounts : IssueInvoiceAct(sl, amt)) \/ ProcessInvoiceAct(sl, 0)
+                                        \/ (UseTtl /\ ProcessInvoiceAct(sl, 1))
                                         \/ \E m \in net : FinalizeInvoiceAct(sl, m)
   \/ MineAct("") \/ TickAct
   \/ UseMineTo /\ MineAct("w1")
